@@ -1,11 +1,10 @@
-\* FAITHFUL model of bytevec.py (tiny,tiny,FULL,small): TLC must exhibit bytevec-aligned-nested-alias; run with -continue to list every violating history
+\* NEGATIVE CONTROL / regression model: the code before 1a97aee (aligned set_slice stores a ByteVec value by reference, finding bytevec-aligned-nested-alias); tiny,tiny,FULL,small; TLC must refute it; run with -continue to list every violating history
 SPECIFICATION Spec
 VIEW View
 CONSTANTS
   NV = 2
   W = 4
   Depth = 4
-  Mode = "all"
   Emit = "none"
   Pick = "all"
   FullLevels = {3}
@@ -14,9 +13,9 @@ CONSTANTS
   XOffs = {}
   XLens = {}
   MaxLen = 9
+  Mutant = "alignedref"
   Prof <- ProfByLevel
 INVARIANT InvFlatTypeOK
 INVARIANT InvWellFormed
 INVARIANT InvRefines
 INVARIANT InvCopyIndependence
-INVARIANT InvReadsAgree
